@@ -132,6 +132,17 @@ pub fn make_p1_full(role: Role, scheme: Scheme, offset: usize, high: bool, fill_
     p
 }
 
+/// A digest-bearing packet 1 for `role` whose filling is `base` (e.g. bytes the peer received
+/// earlier and reuses): only the selector bytes of `scheme` and the digest are written.
+pub fn make_p1_from(base: &[u8], role: Role, scheme: Scheme, offset: usize, high: bool) -> Vec<u8> {
+    let mut p = base[..PKT].to_vec();
+    steer(&mut p, scheme.selector(), offset, high);
+    let pos = digest_pos(&p, scheme);
+    let d = digest_of(&p, pos, role.p1_key());
+    p[pos..pos + 32].copy_from_slice(&d);
+    p
+}
+
 /// A packet 1 of the original handshake: time, four zero bytes, random (no digest).
 pub fn make_plain_p1(fill_seed: u64, zero_version: bool) -> Vec<u8> {
     let mut p = expand_bytes(fill_seed ^ 0x77, PKT);
